@@ -28,7 +28,7 @@ META = {
     "title": "Register allocation never gives one register to two live values",
     "category": "proof",
     "design_ref": "DESIGN.md §5 C19",
-    "lean_modules": ["XdslProofs.C19", "XdslProofs.C19Stack", "XdslProofs.C19Excluded"],
+    "lean_modules": ["XdslProofs.C19", "XdslProofs.C19Stack", "XdslProofs.C19Excluded", "XdslProofs.C19Loop"],
     "text": (
         "Lean theorems over straight-line blocks of operations with ins/outs/in-out pairs, for EVERY instruction "
         "semantics (opcode meaning is a parameter), all inputs and all initial register contents: "
@@ -76,17 +76,60 @@ META = {
         "real RegisterAllocatableOperation.all_excluded_registers(func.body) is compared with the Lean model "
         "allExcluded of its operation tree (driver model excluded_walk); (d) the real RegisterStack API is "
         "driven directly through every call sequence of the small scope and compared, result and complete state "
-        "after every call, with the Lean model (driver model register_stack)."
+        "after every call, with the Lean model (driver model register_stack). "
+        "Blocks with loops (XdslProofs.C19Loop, model XdslModel/RegAllocLoop.lean, driver model regalloc_loop): the "
+        "allocator is modelled over a tree of operations with riscv_scf.for / riscv_snitch.frep_outer nodes exactly as "
+        "the code runs — live_ins_per_block (ordered), allocate_value of the live-ins, allocate_values_same_reg of every "
+        "(block argument, iter_arg, yield operand, result), induction variable, ub, step (frep: max_rep), "
+        "reserve_registers(iter_args.types) around the body on the RegisterStack with reservation counts and the "
+        "assertion of pop, free_value(induction variable), allocate_value(lb); get_constant_value is asked in the "
+        "current allocation state. Theorems: validatorL_sound (the validator for blocks with loops, validateL, is sound: "
+        "an accepted assignment makes the register machine with loops lowered as convert-riscv-scf-to-riscv-cf does "
+        "return the SSA results for every instruction semantics, loop test, increment, frep count, input and EVERY trip "
+        "count), validateL_flat (it is the straight-line validator on loop-free blocks), reserved_never_handed_out "
+        "(any nesting depth: no pop made while a loop body is allocated returns a register of an iter_arg, and it is "
+        "still reserved afterwards; allocT_restored: every block restores all reservation counts), "
+        "reserved_window_body (the same through reserved_window of C19Stack: the logged stack calls are a run of the "
+        "RegisterStack model, allocT_replays), live_ins_keep_register / allocT_ext (every value that has a register "
+        "keeps it through every block at every depth; live-ins have theirs before the body is entered), "
+        "undisciplined_accepted_counterexample (the known finding on the model: undisciplined input accepted, block "
+        "argument and live-in share t0, validator rejects, register machine returns 20 instead of 5); "
+        "alloc_loops_no_interference_partial / disciplined_alloc_sound_partial (loop nests of ANY depth, every pool and "
+        "stack order: if the input is disciplined, passes the decidable side conditions thmHyps — SSA and scoping, "
+        "riscv_scf.for only, no in/out instructions, loop-carried values local to their loop, none of them a zero "
+        "constant — and the allocator succeeds, then validateL accepts the result, pre-assigned registers are kept, every "
+        "value has a register and register execution = SSA execution for every trip count; proof: the invariant LInv = "
+        "stack_inv of the straight-line allocator + reserved registers are unavailable + a live value shares a register "
+        "with a protected block argument / iter_arg only if the feasibility witness ties them, through "
+        "allocate_values_same_reg on every combination of already allocated group members). The in/out "
+        "discipline is the decidable predicate Disciplined (the most permissive assignment — ties + pre-assignment — "
+        "passes validateL), evaluated by the Lean driver on EVERY generated case of both targets and cross-checked "
+        "against the Python feasibility classification. Tie: every generated riscv function with loops and / or "
+        "float registers is allocated by the Lean model (one query per register class: the pools are independent) and "
+        "compared with the real allocator register by register, including the kind of failure; live_ins_per_block of "
+        "the real allocator is compared with the model (ordered); validateL is run on every real allocation of a "
+        "function with loops that the Python oracle accepts; the hypotheses of the allocator theorem are evaluated by "
+        "the driver on every loop function (integer class) together with its claim (hypotheses + discipline + success "
+        "=> validateL accepts)."
     ),
     "technique": "Lean 4 proved validator + proved model of the block-naive allocator; translation validation of "
                  "every real allocation; independent Python liveness/interference oracle and differential execution",
     "level_note": (
         "Partial points: the allocator theorem (alloc_no_interference_partial, stack_inv) covers straight-line "
-        "blocks incl. in/out pairs; the loop part of the allocator (ForRofOperation.allocate_registers, register "
-        "reservation) is not modelled in Lean beyond the RegisterStack it uses (reservation counts and exclusion are "
-        "modelled and proved in C19Stack, tied by the exhaustive small-scope API correspondence): functions with loops are judged by the Python oracle (loop lowering "
-        "of convert-riscv-scf-to-riscv-cf transcribed by hand in exec_regs / unroll) and by the proved validator "
-        "on their unrolled execution path only (one path per function, not all trip counts). Excluded from the quantifier: inputs whose pre-assignment itself makes "
+        "blocks incl. in/out pairs; the loop part of the allocator (ForRofOperation / FRepOperation.allocate_registers, "
+        "register reservation, live_ins_per_block) is modelled in Lean (XdslModel/RegAllocLoop.lean) and compared with "
+        "the real allocator on every generated loop function; proved about it: soundness of the loop validator for all "
+        "trip counts, reservations, stability of registers, the counterexample, and alloc_loops_no_interference_partial "
+        "(not covered by that theorem: frep loops, loop-carried groups containing a zero constant such as "
+        "iter_args(%acc = %zero), yields of values that are live throughout the loop, x86 in/out ops in loop nests); "
+        "functions with loops are judged by the "
+        "Python oracle (loop lowering of convert-riscv-scf-to-riscv-cf transcribed by hand in exec_regs / unroll), by the "
+        "proved straight-line validator on their unrolled execution path and by the proved loop validator validateL on "
+        "the loop structure itself. The Lean validator for loops never takes a loop-bound value (induction variable, "
+        "block argument, result) to be the constant 0: allocations that put a loop-carried group into `zero` (accepted "
+        "by the Python oracle through its fixpoint rule) are counted apart (zero-carried-corner) and the discipline is "
+        "cross-checked against the Python classification computed with the same conservative rule. x86_scf loops are "
+        "not generated. Excluded from the quantifier: inputs whose pre-assignment itself makes "
         "two interfering values share a register (the generator repairs them); x86 inputs violating the documented "
         "in/out discipline are passed through the real x86-regalloc-legalize first. OutOfRegisters / "
         "DiagnosticException / any pass exception = reported failure (allowed). Trusted: Lean kernel; the "
@@ -125,7 +168,8 @@ META = {
     ),
     "trusted_base": [
         "correspondence harness harness/props/c19.py (IR builder, extractor by position, Python oracle)",
-        "hand-written Lean models XdslModel/RegMachine.lean, XdslModel/RegAlloc.lean",
+        "hand-written Lean models XdslModel/RegMachine.lean, XdslModel/RegAlloc.lean, XdslModel/RegAllocLoop.lean "
+        "(tied on every generated loop function: registers, failures, live-ins, discipline)",
         "loop lowering semantics transcribed from convert_riscv_scf_to_riscv_cf.py (Python oracle only)",
         "hand-written Lean model XdslModel/Excluded.lean (operation tree walk), tied on every generated function",
         "harness-defined operation c19.reserve (iter_excluded_registers = its attribute) and the transcribed table "
@@ -434,8 +478,10 @@ class Clash(Exception):
         self.detail = detail
 
 
-def zero_constants(case: dict) -> set[int]:
-    """values that are the constant 0 by construction: `li 0`, get_register zero, moves of those"""
+def zero_constants(case: dict, loop_zero: bool = True) -> set[int]:
+    """values that are the constant 0 by construction: `li 0`, get_register zero, moves of those.
+    With loop_zero=False loop-carried values (block arguments, results) are never taken to be constant —
+    the conservative rule of the Lean validator for blocks with loops (`checkT`)."""
     z: set[int] = set()
 
     def block(ops):
@@ -447,6 +493,8 @@ def zero_constants(case: dict) -> set[int]:
                 z.add(op["outs"][0][0])
             elif k == "mv" and op["ins"][0] in z:
                 z.add(op["outs"][0][0])
+            elif k == "for" and not loop_zero:
+                block(op["body"])
             elif k == "for":
                 # a loop-carried value is the constant 0 when its init is and, assuming that of the
                 # block arguments, every iteration yields the constant 0 again (greatest fixpoint:
@@ -473,12 +521,12 @@ def zero_constants(case: dict) -> set[int]:
 
 
 def check_interference(case: dict, alloc: dict[int, str | None], zero_name: str | None = "zero",
-                       check_ties: bool = True) -> None:
+                       check_ties: bool = True, loop_zero: bool = True) -> None:
     """Raise Clash when the assignment lets two simultaneously live distinct values share a register,
     lets a definition overwrite a live value, breaks a register tie that the instruction set / loop
     lowering needs, or puts a non-zero value in the zero register.  Values with alloc None are ignored
     (used to vet the pre-assignment of an input)."""
-    zc = zero_constants(case)
+    zc = zero_constants(case, loop_zero)
 
     def reg(v):
         return alloc.get(v)
@@ -616,7 +664,7 @@ def canonical_alloc(case: dict, ties: bool = True) -> dict[int, str]:
     return out
 
 
-def feasibility(case: dict, ties: bool = True, zero_groups: bool = False) -> str | None:
+def feasibility(case: dict, ties: bool = True, zero_groups: bool = False, loop_zero: bool = True) -> str | None:
     """None when some register assignment can satisfy the property for this input (ties + pre-assignment
     are consistent with liveness); otherwise the reason.  Inputs that are infeasible cannot be
     allocated correctly by ANY allocator: the only correct behaviour is to report failure.
@@ -640,7 +688,8 @@ def feasibility(case: dict, ties: bool = True, zero_groups: bool = False) -> str
                 for v in vs:
                     ca[v] = "zero"
     try:
-        check_interference(case, ca, zero_name="zero" if case["target"] == "riscv" else None, check_ties=ties)
+        check_interference(case, ca, zero_name="zero" if case["target"] == "riscv" else None, check_ties=ties,
+                           loop_zero=loop_zero)
     except Clash as c:
         return f"{c.kind}: {c.detail}"
     return None
@@ -996,7 +1045,7 @@ def make_reserve_op(target: str, regs: list[str]):
     return _RESERVE["cls"](attributes={"regs": ArrayAttr(tys)})
 
 
-def extract(func, target: str, rets_from: dict | None = None) -> dict:
+def extract(func, target: str, rets_from: dict | None = None, ids_out: dict | None = None) -> dict:
     """IR -> abstract program (fresh value ids by position).  Independent of
     get_register_constraints: the read/write structure comes from RV_KINDS / X86_KINDS."""
     ids: dict[int, int] = {}
@@ -1111,6 +1160,8 @@ def extract(func, target: str, rets_from: dict | None = None) -> dict:
     else:
         ops, term = block(b, ("x86_func.ret",))
         rets = []
+    if ids_out is not None:
+        ids_out.update(ids)
     return {"target": target, "args": args, "ops": ops, "rets": rets}
 
 
@@ -1170,7 +1221,12 @@ def run_real(case: dict) -> dict:
 
         X86RegallocLegalizePass().apply(ctx, mod)
         mod.verify()
-    prog = extract(func, t)
+    ids: dict[int, int] = {}
+    prog = extract(func, t, ids_out=ids)
+    try:
+        res["live_ins"] = real_live_ins(func, ids) if t == "riscv" else None
+    except Exception:  # noqa: BLE001
+        res["live_ins"] = None
     if t == "x86":
         # observed results: the values named by the case (positions are stable when nothing was inserted;
         # after legalization the observed values are the last definitions of the pre-assigned result registers)
@@ -1450,6 +1506,243 @@ def unroll(prog: dict, alloc: dict[int, str]) -> tuple[dict, dict[int, str]]:
 
 def fmt_model_alloc(t: str, alloc: dict[int, str]) -> str:
     return "alloc " + enc_assign(t, alloc)
+
+
+# =============================================================================================
+# Lean protocol for blocks with loops (driver model `regalloc_loop`): the structured-loop part of the
+# allocator (ForRofOperation / FRepOperation.allocate_registers, live_ins_per_block, reservations), the
+# validator for blocks with loops and the decidable in/out discipline
+# =============================================================================================
+_OP_CODE = {k: i + 3 for i, k in enumerate(sorted(set(RV_KINDS) | set(X86_KINDS) | {"pmov", "_use"}))}
+
+
+def enc_tree(prog: dict, cls: str | None = None) -> str:
+    """`args .. ; <item> ; .. ; ret ..` with `for .. ; <body items> ; end` for loops.  With `cls` the
+    program is projected on the values of one register class: the register stacks of the classes are
+    independent (RegisterStack keeps one pool per register_pool_key), so the allocation of one class is
+    the allocation of the projected program."""
+    t = prog["target"]
+    vals = all_values(prog)
+
+    def keep(v: int) -> bool:
+        return cls is None or vals[v][0] == cls
+
+    def nums(vs) -> str:
+        return " ".join(str(v) for v in vs if keep(v))
+
+    def opt(key: str, v) -> str:
+        return f" {key} {v}" if v is not None and keep(v) else ""
+
+    parts = ["args " + nums(a[0] for a in prog["args"])]
+
+    def block(ops):
+        for op in ops:
+            k = op["k"]
+            if k == "for":
+                step = op.get("step")
+                idx = [i for i, b in enumerate(op["bargs"]) if keep(b[0])]
+                s = "for" + opt("lb", op.get("lb")) + opt("ub", op.get("ub"))
+                s += opt("st", step["v"] if isinstance(step, dict) else None)
+                s += opt("iv", op["iv"][0] if op.get("iv") else None)
+                s += opt("rep", op.get("rep") if op.get("frep") else None)
+                s += f" imm {step if isinstance(step, int) else 0}"
+                s += " in " + " ".join(str(op["inits"][i]) for i in idx)
+                s += " ba " + " ".join(str(op["bargs"][i][0]) for i in idx)
+                s += " yi " + " ".join(str(op["yields"][i]) for i in idx)
+                s += " re " + " ".join(str(op["res"][i][0]) for i in idx)
+                parts.append(" ".join(s.split()))
+                block(op["body"])
+                parts.append("end")
+                continue
+            if (k == "li" and op.get("imm") == 0) or k == "getzero":
+                zk = 1
+            elif k == "mv" and t == "riscv":
+                zk = 2
+            elif k == "pmov":
+                zk = 3
+            else:
+                zk = 0
+            s = f"op {zk} {_OP_CODE[k]} {op.get('imm') or 0} i " + nums(op["ins"])
+            s += " o " + nums(d[0] for d in op["outs"])
+            s += " p " + " ".join(f"{p[0]} {p[1][0]}" for p in op.get("io", []) if keep(p[0]))
+            parts.append(" ".join(s.split()))
+
+    block(prog["ops"])
+    parts.append("ret " + nums(prog["rets"]))
+    return " ; ".join(" ".join(p_.split()) for p_ in parts)
+
+
+def _reg_cls(t: str, name: str) -> str:
+    return "f" if t == "riscv" and (name in RV_FLT or name.startswith("fj_")) else "i"
+
+
+def loop_head(prog: dict, cls: str | None) -> str:
+    """program + pre-assignment + pool + options (+ excluded registers) of one register class
+    (cls None: the whole program, for the validator / the discipline)"""
+    t = prog["target"]
+    vals = all_values(prog)
+    pre = {v: r for v, (c, r) in vals.items() if r is not None and (cls is None or c == cls)}
+    mode = prog.get("mode", "pass")
+    c = cls or "i"
+    if prog.get("pool") is not None:
+        pool = [n for n in prog["pool"] if _reg_cls(t, n) == c]
+    elif mode == "force_infinite":
+        pool = []
+    elif t == "riscv":
+        pool = list(reversed(RV_POOL_I if c == "i" else RV_POOL_F))
+    else:
+        pool = list(reversed(X86_POOL))
+    inf = 1 if mode in ("allow_infinite", "force_infinite", "pool_infinite") else 0
+    infbase = (1000 if c == "i" else 2000) if t == "riscv" else 3000
+    zero = 1 if (t == "riscv" and c == "i") else 0
+    head = (f"{enc_tree(prog, cls)} ; pre {enc_assign(t, pre)} ; pool {' '.join(str(reg_num(t, n)) for n in pool)}"
+            f" ; opt {zero} {inf} {infbase}")
+    excl = sorted(reg_num(t, r) for r in declared_reserved(prog) if cls is None or _reg_cls(t, r) == cls)
+    if excl:
+        head += " ; excl " + " ".join(map(str, excl))
+    return head
+
+
+def real_live_ins(func, ids_of: dict) -> list[list[int]] | None:
+    """live_ins_per_block of the real allocator for every loop body, in the order in which the Lean model
+    lists them (program order, a loop before the loops of its body), register values only"""
+    from xdsl.backend.register_allocator import live_ins_per_block
+    from xdsl.backend.register_type import RegisterType
+
+    li = live_ins_per_block(func.body.block)
+    out: list[list[int]] = []
+
+    def block(b):
+        for op in b.ops:
+            if op.name in ("riscv_scf.for", "riscv_snitch.frep_outer"):
+                body = op.body.block
+                out.append([ids_of[id(v)] for v in li[body] if isinstance(v.type, RegisterType) and id(v) in ids_of])
+                block(body)
+
+    block(func.body.block)
+    return out
+
+
+LOOP_BATCH: list = []
+LOOP_RAISES = ("raise:OutOfRegisters", "raise:DiagnosticException", "raise:AssertionError", "raise:ValueError")
+
+
+def loop_leg_wanted(prog: dict) -> bool:
+    """functions that the straight-line model `regalloc` does not cover: loops and / or float registers"""
+    return prog["target"] == "riscv" and not lean_supported(prog)
+
+
+def flush_loops(ctx: core.Ctx) -> None:
+    """(1) `Disciplined` (Lean, decidable) against the Python feasibility classification, on every case of
+    both targets; (2) the Lean model of the structured allocator against the real allocator: the register
+    of every value, and the kind of failure; (3) live_ins_per_block; (4) the Lean validator for blocks
+    with loops on the real allocation."""
+    if not LOOP_BATCH:
+        return
+    lines: list[str] = []
+    plan: list[dict] = []
+    for case, prog, res, accepted in LOOP_BATCH:
+        e: dict[str, Any] = {"disc": len(lines)}
+        lines.append("ldisc " + loop_head(prog, None))
+        if loop_leg_wanted(prog) and (res["status"] == "ok" or res["status"] in LOOP_RAISES):
+            classes = sorted({c for c, _ in all_values(prog).values()} | {"i"})
+            e["alloc"] = {}
+            for c in classes:
+                e["alloc"][c] = len(lines)
+                lines.append("lalloc " + loop_head(prog, c))
+            if has_loops(prog) and res.get("live_ins") is not None:
+                e["livein"] = len(lines)
+                lines.append("livein " + enc_tree(prog, None))
+            if res["status"] == "ok" and accepted and has_loops(prog):
+                e["validate"] = len(lines)
+                lines.append("lvalidate " + loop_head(prog, None) + " ; asg " + enc_assign(prog["target"], res["alloc"]))
+            if has_loops(prog):
+                # the allocator theorem on the integer class: its decidable hypotheses, the discipline, and its claim
+                e["thm"] = len(lines)
+                lines.append("lthm " + loop_head(prog, "i"))
+        plan.append(e)
+    out = ctx.model("regalloc_loop", lines)
+    for e, (case, prog, res, accepted) in zip(plan, LOOP_BATCH):
+        t = prog["target"]
+        # (1) the discipline
+        want = "disciplined" if res.get("feasibility_nz") is None else "undisciplined"
+        ctx.count("loops.disc_queries")
+        if (res.get("feasibility") is None) != (res.get("feasibility_nz") is None):
+            ctx.count("loops.disc.zero-carried-corner")          # only the fixpoint rule of the Python oracle accepts
+        if out[e["disc"]] != want:
+            ctx.mismatch("correspondence:C19/regalloc_loop(disciplined)", case, [want + " (" + str(res.get("feasibility_nz")) + ")"],
+                         [out[e["disc"]]],
+                         "the Lean predicate Disciplined and the Python feasibility classification disagree")
+        elif has_loops(prog):
+            ctx.count("loops.disc." + want)
+        # (2) the allocator
+        if "alloc" in e:
+            ctx.count("loops.alloc_queries")
+            got = {c: out[i] for c, i in e["alloc"].items()}
+            vals = all_values(prog)
+            if res["status"] == "ok":
+                impl = {c: fmt_model_alloc(t, {v: r for v, r in res["alloc"].items() if vals[v][0] == c}) for c in got}
+                bad = {c for c in got if " ".join(got[c].split()) != " ".join(impl[c].split())}
+                ctx.count("loops.alloc.ok")
+            else:
+                exc = res["status"].replace(":", " ")
+                raised = [g for g in got.values() if g.startswith("raise ")]
+                impl = {c: exc for c in got}
+                bad = set() if raised and exc in raised else set(got)
+                ctx.count("loops.alloc." + res["status"])
+            if bad:
+                ctx.mismatch("correspondence:C19/regalloc_loop(alloc)", case, [f"{c}: {impl[c]}" for c in sorted(got)],
+                             [f"{c}: {got[c]}" for c in sorted(got)],
+                             "the Lean model of the allocator for blocks with loops (allocT) chose differently from the "
+                             "real allocator (register class(es) " + ",".join(sorted(bad)) + ")")
+        # (3) live-ins
+        if "livein" in e:
+            impl_li = "livein " + " | ".join(" ".join(map(str, l)) for l in res["live_ins"])
+            ctx.count("loops.livein_queries")
+            if " ".join(impl_li.split()) != " ".join(out[e["livein"]].split()):
+                ctx.mismatch("correspondence:C19/regalloc_loop(live_ins)", case, [impl_li], [out[e["livein"]]],
+                             "live_ins_per_block differs from the Lean model liveIns (ordered)")
+        # (5) the allocator theorem (alloc_loops_no_interference_partial): hypotheses + discipline => valid
+        if "thm" in e:
+            o = out[e["thm"]]
+            ctx.count("loops.thm_queries")
+            f = dict(kv.split("=") for kv in o.split()[1:]) if o.startswith("thm ") else {}
+            if not f:
+                ctx.mismatch("correspondence:C19/regalloc_loop(thm)", case, ["thm ..."], [o], "driver answer not understood")
+            else:
+                if f["hyps"] == "1":
+                    ctx.count("loops.thm.hypotheses-hold")
+                if f["hyps"] == "1" and f["disc"] == "1":
+                    ctx.count("loops.thm.covered" + (".allocated" if f["alloc"] != "failed" else ".alloc-failed"))
+                    if f["alloc"] == "INVALID":
+                        ctx.mismatch("correspondence:C19/regalloc_loop(thm)", case, ["theorem: valid"], [o],
+                                     "the model allocator's result is rejected by validateL although the hypotheses of "
+                                     "alloc_loops_no_interference_partial hold (the proved theorem says this cannot happen)")
+        # (4) the validator for blocks with loops
+        if "validate" in e:
+            zc_corner = zero_group_corner(prog, res["alloc"])
+            ctx.count("loops.validate_queries" + (".zero-carried-corner" if zc_corner else ""))
+            if out[e["validate"]] != "valid" and not zc_corner:
+                ctx.mismatch("correspondence:C19/regalloc_loop(validate)", case, ["python-oracle: accepted"], [out[e["validate"]]],
+                             "the Lean validator for blocks with loops (validateL) rejects a real allocation that the "
+                             "Python oracle accepts")
+    LOOP_BATCH.clear()
+
+
+def zero_group_corner(prog: dict, alloc: dict[int, str]) -> bool:
+    """a loop-bound value (induction variable, block argument, result) sits in `zero`: accepted by the
+    Python oracle when its fixpoint rule shows the value to be the constant 0; the Lean validator for
+    blocks with loops never takes a loop-bound value to be constant"""
+    def block(ops):
+        for op in ops:
+            if op["k"] == "for":
+                if any(alloc.get(v) == "zero" for v in loop_bound(op) | {r[0] for r in op["res"]}):
+                    return True
+                if block(op["body"]):
+                    return True
+        return False
+
+    return prog["target"] == "riscv" and block(prog["ops"])
 
 
 # =============================================================================================
@@ -2251,6 +2544,7 @@ def prepare(case: dict) -> dict:
     """run the real code on a case and attach the feasibility verdict of the (legalized) program"""
     res = run_real(case)
     res["feasibility"] = feasibility(res["prog"])
+    res["feasibility_nz"] = feasibility(res["prog"], loop_zero=False)
     res["pre_feasibility"] = feasibility(res["prog"], ties=False) if res["feasibility"] is not None else None
     return res
 
@@ -2365,6 +2659,7 @@ def process(ctx: core.Ctx, case: dict, lean_batch: list, stream: str) -> None:
         if nres:
             ctx.count("reserving-ops." + ("nested-only" if not any(op_reserves(o) for o in prog["ops"]) else "top-level"))
     verdict = judge(case, res, ctx.rng)
+    LOOP_BATCH.append((case, prog, res, verdict is None and res["status"] == "ok" and res.get("feasibility") is None))
     if res["status"] == "ok":
         p = max_pressure(prog)
         ctx.count("pressure.%02d" % min(p, 20))
@@ -2433,6 +2728,7 @@ def flush_walk(ctx: core.Ctx) -> None:
 
 def flush_lean(ctx: core.Ctx, lean_batch: list) -> None:
     flush_walk(ctx)
+    flush_loops(ctx)
     if not lean_batch:
         return
     lines: list[str] = []
@@ -2820,6 +3116,7 @@ def run_register_stack(ctx: core.Ctx, nfinite: int, depth: int, memo: bool) -> N
 def run(ctx: core.Ctx) -> None:
     ctx.lean()
     WALK_BATCH.clear()
+    LOOP_BATCH.clear()
     quick = ctx.tier == "quick"
     budget = ctx.budget_s
     lean_batch: list = []
